@@ -231,6 +231,7 @@ func (li *loopInfo) innermost(b *ssa.BasicBlock) *ssa.BasicBlock {
 // verifyFunction builds the VC of one function under contract.
 func (p *Program) verifyFunction(fc *FuncContract, fn *ssa.Function) *VC {
 	vc := newVC(fc.Key(), p.ss)
+	vc.split = fc.Options["split"]
 	x := &Exec{vc: vc, prog: p, ss: p.ss, maxInline: 3}
 	fr := x.newFrame(fn, 0)
 	fr.contract = fc
